@@ -196,7 +196,7 @@ def snapshot_corrupt(snap_lines):
             return "freed-record-reachable"
         for tok in ln.replace("cur=", " ").replace("holders=[", " ").replace("waiters=[", " ").replace("]", " ").split():
             parts = tok.split(":")
-            if len(parts) == 9 and parts[3].isdigit() and int(parts[3]) >= 200:
+            if len(parts) == 13 and parts[3].isdigit() and int(parts[3]) >= 200:
                 return "refcount-underflow"
     return None
 
